@@ -1026,6 +1026,7 @@ Definition after_load (i : input) (w0 : list str) (r : res (settings * list str)
   do r <- r;
   do st <- apply_cli (fst r) (i_cli i);
   do st <- normalise_paths (project_dir i) (i_ford i) st;
+  do st <- exclude_output st;
   do st <- finish_arguments st;
   Ok (st, w0 ++ snd r).
 
@@ -1363,7 +1364,8 @@ Proof.
   destruct (load_settings (i_lines i) (i_toml i) (k1 ++ k2)) as [[s0 ws]| |]; cbn [bind] in *; try discriminate R.
   cbn [fst snd] in *. destruct (apply_cli s0 (i_cli i)); cbn [bind] in *; try discriminate R.
   destruct (normalise_paths _ _ a); cbn [bind] in *; try discriminate R.
-  destruct (finish_arguments a0); cbn [bind] in *; try discriminate R.
+  destruct (exclude_output a0); cbn [bind] in *; try discriminate R.
+  destruct (finish_arguments a1); cbn [bind] in *; try discriminate R.
   injection R as <- <-. eexists. split; [reflexivity|].
   apply in_or_app. left. apply in_or_app. right. now left.
 Qed.
@@ -1725,6 +1727,123 @@ Example ill_typed_scalar_examples :
   (forall X, construct [(s "relative", X)] = Err (s "TypeError") (s "relative") true) /\
   piece (s "TRUE") = true /\
   field_is (effective (with_toml demo_input [(s "search", PStr (s "FALSE"))])) (s "search") (PBool false) = true.
+Proof. repeat split; vm_compute; reflexivity. Qed.
+
+(* ------------------------------------------------------------------ the output directory is excluded *)
+Lemma pv_eqb_refl : forall a, pv_eqb a a = true.
+Proof.
+  fix F 1. destruct a; cbn [pv_eqb]; try reflexivity.
+  - apply Bool.eqb_reflx.
+  - apply Z.eqb_refl.
+  - apply seqb_refl.
+  - apply seqb_refl.
+  - induction l as [|x l IH]; [reflexivity|]. rewrite (F x). exact IH.
+  - induction d as [|[k x] d IH]; [reflexivity|]. rewrite seqb_refl, (F x). exact IH.
+  - rewrite !seqb_refl. destruct lexer; cbn; [apply seqb_refl|reflexivity].
+  - apply seqb_refl.
+Qed.
+
+Lemma py_eq_refl a : py_eq a a = true.
+Proof. destruct a; cbn [py_eq]; apply pv_eqb_refl. Qed.
+
+Lemma sget_some_aget k st v : sget k st = v -> v <> PNone -> aget k st <> None.
+Proof. unfold sget. destruct (aget k st); congruence. Qed.
+
+Definition with_output (od : pv) (l : list pv) : list pv :=
+  if existsb (py_eq od) l then l else l ++ [od].
+
+(* the step of parse_arguments: exclude_dir becomes the winning value followed by the effective
+   output_dir unless that is already in the list; nothing else changes *)
+Theorem exclude_output_spec st l :
+  sget (s "exclude_dir") st = PList l ->
+  exists st', exclude_output st = Ok st' /\
+              sget (s "exclude_dir") st' = PList (with_output (sget (s "output_dir") st) l) /\
+              forall k, k <> s "exclude_dir" -> sget k st' = sget k st.
+Proof.
+  intros E. unfold exclude_output, with_output. rewrite E.
+  destruct (existsb (py_eq (sget (s "output_dir") st)) l).
+  - exists st. auto.
+  - eexists. split; [reflexivity|]. split.
+    + apply sget_sset_same. apply (sget_some_aget _ _ _ E). discriminate.
+    + intros k N. now apply sget_sset_other.
+Qed.
+
+Lemma with_output_has od l : existsb (py_eq od) (with_output od l) = true.
+Proof.
+  unfold with_output. destruct (existsb (py_eq od) l) eqn:X; [exact X|].
+  rewrite existsb_app. cbn [existsb]. now rewrite py_eq_refl, orb_true_r.
+Qed.
+
+Lemma exclude_output_has st st' : exclude_output st = Ok st' ->
+  exists l, sget (s "exclude_dir") st' = PList l /\ existsb (py_eq (sget (s "output_dir") st')) l = true.
+Proof.
+  intros H. destruct (sget (s "exclude_dir") st) as [| | | | |l| | |] eqn:E;
+    try (unfold exclude_output in H; rewrite E in H; discriminate H).
+  destruct (exclude_output_spec st l E) as (st2 & H2 & Ex & Oth). rewrite H in H2. injection H2 as <-.
+  exists (with_output (sget (s "output_dir") st) l). split; [exact Ex|].
+  rewrite Oth by (intros C; vm_compute in C; discriminate C). apply with_output_has.
+Qed.
+
+Lemma str_neq a b : seqb a b = false -> a <> b.
+Proof. apply seqb_neq. Qed.
+
+(* the rest of parse_arguments touches neither option *)
+Lemma finish_arguments_keeps st st' k : finish_arguments st = Ok st' ->
+  k <> s "creation_date" -> k <> s "fpp_extensions" -> k <> s "license" -> k <> s "doc_license" ->
+  sget k st' = sget k st.
+Proof.
+  unfold finish_arguments. intros H N1 N2 N3 N4.
+  destruct (sget (s "creation_date") st); cbn [bind] in H; try discriminate H.
+  destruct (py_iter _); cbn [bind] in H; try discriminate H.
+  destruct (existsb _ _); [discriminate H|].
+  destruct (sget (s "gitter_sidecar") _); cbn [bind] in H; try discriminate H.
+  - destruct (py_truthy _).
+    + destruct (sget (s "preprocessor") _); cbn [bind] in H; try discriminate H.
+      destruct (license_of (s "license") _); cbn [bind] in H; try discriminate H.
+      destruct (license_of (s "doc_license") _); cbn [bind] in H; try discriminate H.
+      injection H as <-. now rewrite !sget_sset_other by assumption.
+    + cbn [bind] in H.
+      destruct (license_of (s "license") _); cbn [bind] in H; try discriminate H.
+      destruct (license_of (s "doc_license") _); cbn [bind] in H; try discriminate H.
+      injection H as <-. now rewrite !sget_sset_other by assumption.
+  - destruct (py_truthy _).
+    + destruct (sget (s "preprocessor") _); cbn [bind] in H; try discriminate H.
+      destruct (license_of (s "license") _); cbn [bind] in H; try discriminate H.
+      destruct (license_of (s "doc_license") _); cbn [bind] in H; try discriminate H.
+      injection H as <-. now rewrite !sget_sset_other by assumption.
+    + cbn [bind] in H.
+      destruct (license_of (s "license") _); cbn [bind] in H; try discriminate H.
+      destruct (license_of (s "doc_license") _); cbn [bind] in H; try discriminate H.
+      injection H as <-. now rewrite !sget_sset_other by assumption.
+Qed.
+
+(* whatever the formats and the command line: a run that succeeds excludes its output directory *)
+Theorem output_dir_excluded i st w : effective i = Ok (st, w) ->
+  exists l, sget (s "exclude_dir") st = PList l /\ existsb (py_eq (sget (s "output_dir") st)) l = true.
+Proof.
+  rewrite effective_unfold. destruct (drop_unknown _) as [cfg w0]. unfold after_load.
+  destruct (load_settings _ _ _) as [r| |]; cbn [bind]; try discriminate.
+  destruct (apply_cli _ _) as [a| |]; cbn [bind]; try discriminate.
+  destruct (normalise_paths _ _ a) as [a0| |]; cbn [bind]; try discriminate.
+  destruct (exclude_output a0) as [a1| |] eqn:X; cbn [bind]; try discriminate.
+  destruct (finish_arguments a1) as [a2| |] eqn:F; cbn [bind]; try discriminate.
+  intros [= <- _]. destruct (exclude_output_has a0 a1 X) as (l & E & H).
+  exists l.
+  rewrite !(finish_arguments_keeps a1 a2 _ F) by (intros C; vm_compute in C; discriminate C). auto.
+Qed.
+
+(* command line exclude_dir over a file output_dir: the list is the command line value followed by
+   the file's output directory; command line output_dir over a file exclude_dir: the file's list
+   followed by the command line's output directory *)
+Example exclude_dir_examples :
+  field_is (effective (mkinput [s "output_dir: out"; s "exclude_dir: fromfile"] None None
+                               [(s "exclude_dir", PList [PStr (s "cli_a")])] (s "/work/proj") (s "") (s "/opt/ford")))
+           (s "exclude_dir") (PList [PPath (s "/work/proj/cli_a"); PPath (s "/work/proj/out")]) = true /\
+  field_is (effective (mkinput [s "exclude_dir: fromfile"] None None
+                               [(s "output_dir", PStr (s "cli_out"))] (s "/work/proj") (s "") (s "/opt/ford")))
+           (s "exclude_dir") (PList [PPath (s "/work/proj/fromfile"); PPath (s "/work/proj/doc"); PPath (s "/work/proj/cli_out")]) = true /\
+  field_is (effective (mkinput [s "output_dir: out"; s "exclude_dir: out"] None None [] (s "/work/proj") (s "") (s "/opt/ford")))
+           (s "exclude_dir") (PList [PPath (s "/work/proj/out"); PPath (s "/work/proj/out")]) = true.
 Proof. repeat split; vm_compute; reflexivity. Qed.
 
 (* ------------------------------------------------------------------ paths *)
